@@ -38,6 +38,9 @@ def coq(t):
         return "(XBool %s)" % ("true" if t[1] else "false")
     if k == "str":
         return "(XString %s)" % cstr(t[1])
+    if k == "interp":
+        return "(XInterp %s [%s])" % (cstr(t[1]), "; ".join(
+            "(%s, %s, %s)" % (coq(e), "None" if f is None else "(Some %s)" % cstr(f), cstr(b)) for e, f, b in t[2]))
     if k == "if":
         return "(XIf %s %s %s)" % (coq(t[1]), coq(t[2]), coq(t[3]))
     if k == "field":
@@ -75,6 +78,8 @@ def src(t):
         return "true" if t[1] else "false"
     if k == "str":
         return '"%s"' % esc_src(t[1])
+    if k == "interp":
+        return '"%s%s"' % (esc_src(t[1]), "".join("{%s%s}%s" % (src(e), f or "", esc_src(b)) for e, f, b in t[2]))
     if k == "if":
         return "(if %s then %s else %s)" % (src(t[1]), src(t[2]), src(t[3]))
     if k == "field":
@@ -176,12 +181,27 @@ class TGen:
             return ("not", self.B(d - 1))
         if c == 4:
             return ("if", self.B(d - 1), self.B(d - 1), self.B(d - 1))
-        return ("bin", "Equal", ("str", r.choice(STRS)), ("str", r.choice(STRS)))
+        return ("bin", "Equal", self.Str(d - 1), self.Str(d - 2))
+
+    def Str(self, d):
+        """a string: fixed, or interpolated (a struct literal cannot be written inside the braces)"""
+        r = self.r
+        if d <= 0 or r.random() < 0.35:
+            return ("str", r.choice(STRS))
+        items = []
+        for _ in range(r.choice([1, 1, 2, 3])):
+            kind = r.choice(["S", "S", "L", "B", "Str", "K"])
+            e = self.Str(d - 1) if kind == "Str" else getattr(self, kind)(d - 1)
+            if "'struct'" in repr(e):
+                e = self.num()
+            f = r.choice([None, None, ":.2f", ":>10", ":e", ":.3"]) if kind == "S" else None
+            items.append((e, f, r.choice(STRS)))
+        return ("interp", r.choice(STRS), items)
 
     def any(self, d):
-        k = self.r.choice(["S", "S", "S", "L", "L", "B", "K", "Str", "Lst", "Rec"])
+        k = self.r.choice(["S", "S", "S", "L", "L", "B", "K", "Str", "Str", "Lst", "Rec"])
         if k == "Str":
-            return ("str", self.r.choice(STRS))
+            return self.Str(d)
         if k == "Lst":
             return ("list", [self.L(d - 1) for _ in range(self.r.choice([0, 1, 2, 3]))])
         if k == "Rec":
